@@ -153,6 +153,18 @@ func place(t *rapid.T, typ string, target clienttypes.Height, nUpd int) clientPl
 	return p
 }
 
+// safePlan is the fallback when every drawn target was excluded: heights 0-0xff01 … 3-0xff2b (no 0x2f byte, one 0xff byte).
+func (g *gen) safePlan(name, typ string, nUpd int) clientPlan {
+	t := g.t
+	p := place(t, typ, clienttypes.NewHeight(uint64(rapid.IntRange(0, 3).Draw(t, "safeRev")), 0xff00+uint64(rapid.IntRange(1, 40).Draw(t, "safeHeight"))), nUpd)
+	for i := range p.UpdRevs {
+		p.UpdRevs[i] = p.Rev
+	}
+	p.Name = name
+	p.Vals = rapid.SampledFrom([]int{1, 2, 3}).Draw(t, "vals")
+	return p
+}
+
 func (g *gen) drawPlan(name, typ string) clientPlan {
 	t := g.t
 	if typ == tTSS {
@@ -166,10 +178,7 @@ func (g *gen) drawPlan(name, typ string) clientPlan {
 		ok = !g.excludedHeights(typ, p.heights())
 	}
 	if !ok {
-		p = place(t, typ, clienttypes.NewHeight(uint64(rapid.IntRange(0, 3).Draw(t, "safeRev")), 0xff00+uint64(rapid.IntRange(1, 40).Draw(t, "safeHeight"))), nUpd)
-		for i := range p.UpdRevs {
-			p.UpdRevs[i] = p.Rev
-		}
+		return g.safePlan(name, typ, nUpd)
 	}
 	p.Name = name
 	p.Vals = rapid.SampledFrom([]int{1, 2, 3}).Draw(t, "vals")
@@ -247,7 +256,12 @@ func (g *gen) buildClients() {
 	for i, name := range names {
 		typ := rapid.SampledFrom(clientTypes).Draw(t, "type")
 		p := g.drawPlan(name, typ)
-		g.e.create(p, i, g.tss.Acc)
+		if err := g.e.tryCreate(p, i, g.tss.Acc); err != nil {
+			// refused by the client type's own Validate (e.g. a height the type does not accept): not reachable
+			g.r.Label("unreachable_plan_redrawn:" + typ)
+			p = g.safePlan(name, typ, len(p.UpdRevs))
+			g.e.create(p, i, g.tss.Acc)
+		}
 		pp := p
 		g.clients = append(g.clients, &pp)
 		g.byName[name] = &pp
@@ -299,7 +313,10 @@ func (g *gen) lifecycle() {
 		// the new client / consensus state are what the builder would create the client with
 		sctx, _ := baseChain().Ctx().CacheContext() // the base chain never holds clients itself
 		se := &env{c: baseChain(), ctx: sctx}
-		se.create(np, 100+i, g.tss.Acc)
+		if err := se.tryCreate(np, 100+i, g.tss.Acc); err != nil {
+			g.r.Label("unreachable_plan_redrawn:" + newTyp)
+			continue
+		}
 		ncs, _ := se.ck().GetClientState(sctx, p.Name)
 		var ncons exported.ConsensusState = &tssCons
 		if newTyp != tTSS {
